@@ -19,9 +19,19 @@ THEOREMS = [
     "C06.compareType_self",
     "C06.types_quiet_counterexample",
     "C06.types_quiet_partial",
+    "C06.defaults_quiet_counterexample",
+    "C06.defaults_quiet_partial",
+    "C06.quiet_counterexample",
+    "C06.quiet_partial",
+    "C06.converge_column",
+    "C06.converge_counterexample",
+    "C06.converge_partial",
 ]
 PARTIAL = {
-    "C06.types_quiet_partial": "types whose SQLite DDL name is not in SQLAlchemy's ischema_names (CLOB, BINARY, VARBINARY, DOUBLE PRECISION, UUID) reflect through affinity and are reported as changed (C06-T1)",
+    "C06.types_quiet_partial": "types whose SQLite DDL name is not in SQLAlchemy's ischema_names (CLOB, BINARY, VARBINARY, DOUBLE PRECISION, UUID) reflect through affinity and are reported as changed (C06-T1; types_quiet_counterexample)",
+    "C06.defaults_quiet_partial": "string defaults that are empty / contain ' or a newline / are wrapped in parentheses (F9), and padded or doubly parenthesised expression defaults (F9x), are reported as changed (defaults_quiet_counterexample)",
+    "C06.converge_partial": "hypothesis SchemaOk cfg b on the *target* schema (the source schema a is arbitrary); the full statement is refuted by converge_counterexample (server_default=\"it's\"). Model.Diff.apply is my semantics of the ops on SQLite (batch recreate assumed to preserve untouched parts: C06-BIND / C06-EMPTYCOPY are exactly where the real batch code does not)",
+    "C06.quiet_partial": "hypothesis SchemaOk cfg: every compared column type reflects by name and every compared default is plain; the full statement is refuted by quiet_counterexample (server_default=\"it's\")",
 }
 TRUSTED = [
     "Model.Diff.ddlTy / reflTy / sqliteStore / createAll / reflect: my tables of SQLAlchemy's SQLite type compiler, SQLite's stored default text and the inspector; validated entry by entry against the live inspector on every run",
@@ -78,6 +88,9 @@ def classify(failure):
         # batch recreate re-emits a stored default `(a) + (b)` (from text("((a) + (b))")) without parentheses
         if "default-expr-nonplain" in tags and "syntax error" in what and "batch:True" in tags:
             return "C06-F9x"
+        # batch recreate of a table none of whose columns survives: INSERT .. SELECT without columns
+        if "table-without-common-column" in tags and "exc:KeyError" in tags and "insert_from_select" in what and "batch:True" in tags:
+            return "C06-EMPTYCOPY"
         return None
     if kind not in ("quiet", "converge"):
         return None
